@@ -257,8 +257,10 @@ func main() {
 			"max_threads": m.MaxThreads, "executions_with_thread_conflict": m.ConflictExecs, "executions_cut_at_visited_state": m.PrunedExecs})
 	}
 	if len(engineErrs) > 0 {
-		for _, e := range engineErrs {
-			fmt.Fprintln(os.Stderr, "ENGINE-ERROR:", trunc(e, 500))
+		for i, e := range engineErrs {
+			if i < 5 {
+				fmt.Fprintln(os.Stderr, "ENGINE-ERROR:", trunc(e, 500))
+			}
 		}
 		die(2, "engine errors (replay divergence / unstable failure); no verdict")
 	}
